@@ -2,6 +2,7 @@ package main
 
 import (
 	"bytes"
+	"crypto/ed25519"
 	"crypto/sha512"
 	"fmt"
 	"math/big"
@@ -167,11 +168,38 @@ func smallOrderEncodings() [][]byte {
 	return out
 }
 
+// inputChanged compares the argument a conversion function was given (arg, a private copy of want
+// with spare capacity) with the caller's bytes: "" or the description of the modification. A public
+// key whose sign bit was cleared in place is ANOTHER key (−A instead of A): the caller's peer
+// identity no longer verifies its own signatures, and "compared ignoring the sign bit" turns into
+// "the sign bit is erased".
+func inputChanged(fn string, want, arg []byte) string {
+	if !bytes.Equal(want, arg) {
+		for i := range want {
+			if i < len(arg) && want[i] != arg[i] {
+				return fmt.Sprintf("%s modifies the caller's key bytes in place: byte %d was %#02x and is %#02x after the call", fn, i, want[i], arg[i])
+			}
+		}
+		return fmt.Sprintf("%s changes the length of the caller's key bytes", fn)
+	}
+	spare := arg[len(arg):cap(arg)]
+	for _, b := range spare {
+		if b != 0 {
+			return fn + " writes behind the end of the caller's key bytes (spare capacity)"
+		}
+	}
+	return ""
+}
+
 func (e *engine) lowOrderCase(ge []byte, gen string) {
 	op := "encrypt.lowOrder ge=" + lib.Hex(ge)
 	model := e.m.Query(op)
+	// the specification is evaluated on the bytes the caller passed, the real code runs on its own copy
+	// (with spare capacity): a classifier that normalises its argument in place (`ge[31] &= 0x7f`)
+	// changes the caller's key and is reported as such
+	arg := append(make([]byte, 0, len(ge)+8), ge...)
 	impl := lib.Recover(func() string {
-		if extra25519.IsEdLowOrder(ge) {
+		if extra25519.IsEdLowOrder(arg) {
 			return "ok 1"
 		}
 		return "ok 0"
@@ -180,7 +208,9 @@ func (e *engine) lowOrderCase(ge []byte, gen string) {
 		impl = "panic"
 	}
 	mon := ""
-	if len(ge) >= 32 {
+	if d := inputChanged("IsEdLowOrder", ge, arg); d != "" {
+		mon = d + " (" + gen + ")"
+	} else if len(ge) >= 32 {
 		want := specSmallOrder(ge)
 		if impl == "panic" {
 			mon = "IsEdLowOrder panics on an input of at least 32 bytes (" + gen + ")"
@@ -196,8 +226,9 @@ func (e *engine) lowOrderCase(ge []byte, gen string) {
 func (e *engine) pubToXCase(ed []byte, gen string) {
 	op := "encrypt.pubToX ed=" + lib.Hex(ed)
 	model, tr := e.oracleQuery(op)
+	arg := append(make([]byte, 0, len(ed)+8), ed...)
 	impl := lib.Recover(func() string {
-		u, ok := extra25519.PublicKeyToCurve25519(ed)
+		u, ok := extra25519.PublicKeyToCurve25519(arg)
 		if !ok {
 			return "err"
 		}
@@ -216,7 +247,9 @@ func (e *engine) pubToXCase(ed []byte, gen string) {
 		br = "pubToX.notpoint"
 	}
 	mon := ""
-	if len(ed) == 32 {
+	if d := inputChanged("PublicKeyToCurve25519", ed, arg); d != "" {
+		mon = d + " (" + gen + ")"
+	} else if len(ed) == 32 {
 		refuse := specSmallOrder(ed) || !specIsPoint(ed)
 		switch {
 		case impl == "panic":
@@ -235,7 +268,7 @@ func (e *engine) pubToXCase(ed []byte, gen string) {
 }
 
 func (e *engine) runC14() {
-	e.rep.Rule = "IsEdLowOrder / PublicKeyToCurve25519: every encoding congruent to a torsion y-coordinate (computed as [l]Q in math/big, no table) x both sign bits, all 256 one-bit neighbours of each, non-canonical y = p+k (k<19), random 32-byte strings, honest public keys, lengths 0..40; shared-secret symmetry and private/public conversion consistency over random key pairs with x/crypto X25519; distinct = distinct op line"
+	e.rep.Rule = "IsEdLowOrder / PublicKeyToCurve25519: every encoding congruent to a torsion y-coordinate (computed as [l]Q in math/big, no table) x both sign bits, all 256 one-bit neighbours of each, non-canonical y = p+k (k<19), random 32-byte strings, honest public keys, lengths 0..40; shared-secret symmetry and private/public conversion consistency over random key pairs with x/crypto X25519; every call runs on a private copy of the argument (with spare capacity) and the specification on the caller's bytes: a function that writes into its argument (in-place sign masking) is reported, for honest keys with its consequence (the key no longer verifies its own signature); distinct = distinct op line"
 	e.rep.Require("lowOrder.ok1", "lowOrder.ok0", "lowOrder.panic", "pubToX.ok", "pubToX.low", "pubToX.notpoint", "pubToX.panic", "sym")
 	encs := smallOrderEncodings()
 	if len(encs) != 7 {
@@ -299,8 +332,14 @@ func (e *engine) runC14() {
 		a, b := e.newKey(), e.newKey()
 		op := fmt.Sprintf("sym a=%s b=%s", lib.Hex(a.seed), lib.Hex(b.seed))
 		mon := lib.Recover(func() string {
+			aPriv, bPriv := clone(a.priv), clone(b.priv)
+			aPub, bPub := clone(a.pub), clone(b.pub)
+			defer func() { a.priv, b.priv, a.pub, b.pub = aPriv, bPriv, aPub, bPub }()
 			xa64 := extra25519.PrivateKeyToCurve25519(a.priv)
 			xb64 := extra25519.PrivateKeyToCurve25519(b.priv)
+			if d := inputChanged("PrivateKeyToCurve25519", aPriv, a.priv) + inputChanged("PrivateKeyToCurve25519", bPriv, b.priv); d != "" {
+				return d
+			}
 			// ALL 64 returned bytes are observed: DeriveKey hashes the full slice, bytes 32..63 included
 			for _, p := range []struct {
 				got  []byte
@@ -328,6 +367,13 @@ func (e *engine) runC14() {
 			mb, okb := extra25519.PublicKeyToCurve25519(b.pub)
 			if !oka || !okb {
 				return "honest public key refused"
+			}
+			if d := inputChanged("PublicKeyToCurve25519", aPub, a.pub) + inputChanged("PublicKeyToCurve25519", bPub, b.pub); d != "" {
+				// the consequence, stated with crypto/ed25519: the converted key is no longer the signer's key
+				if sig := ed25519.Sign(ed25519.PrivateKey(aPriv), []byte("c14")); !ed25519.Verify(ed25519.PublicKey(a.pub), []byte("c14"), sig) || !ed25519.Verify(ed25519.PublicKey(b.pub), []byte("c14"), ed25519.Sign(ed25519.PrivateKey(bPriv), []byte("c14"))) {
+					d += "; after the conversion the public key no longer verifies a signature of its own private key"
+				}
+				return d
 			}
 			ba, err := curve25519.X25519(xa, curve25519.Basepoint)
 			if err != nil || lib.Hex(ba) != lib.Hex(ma) {
